@@ -313,6 +313,11 @@ class Paragraph(BlockToken):
     parse_setext = True  # can be disabled by Quote
 
     def __new__(cls, lines):
+        if isinstance(lines, tuple):
+            # the lines of a setext heading, see read(). the token is only created here, i.e. after
+            # the block structure of the whole document has been parsed, so that references in the
+            # heading to link reference definitions further down can be resolved.
+            return SetextHeading(list(lines))
         if not isinstance(lines, list):
             # setext heading token, return directly
             return lines
@@ -340,7 +345,7 @@ class Paragraph(BlockToken):
             # check if the paragraph being parsed is in fact a Setext heading
             if cls.parse_setext and cls.is_setext_heading(next_line):
                 line_buffer.append(next(lines))
-                return SetextHeading(line_buffer)
+                return tuple(line_buffer)
 
             # finish the check for paragraph-breaking tokens with the special case: ThematicBreak
             if ThematicBreak.check_interrupts_paragraph(lines):
